@@ -14,7 +14,9 @@ ASSUMPTIONS = ['a plain line can denote a password only if it is not itself of t
                'count-collapsing keeps first-occurrence order (adjacent duplicates collapsed)']
 
 WORDS = ['password', 'pass word', ' lead', 'trail ', 'two  spaces', 'ümlaut', 'пароль', 'Σίσυφος', '$HEX[41]x', '$HEX[zz]', 'a$HEX[41]',
-         '123456', 'p@ss!', '1 2 3', '５', 'tab\there', 'ctl\x01', 'us\x1fx', '\x1flead', 'esc\x1bx', 'nul\x00x', 'del\x7fx', 'nbsp\xa0x', '\xa0lead', 'x', '😀pw', '', ' ', '$HEX[]', 'q' * 30]
+         '123456', 'p@ss!', '1 2 3', '５', 'tab\there', 'ctl\x01', 'us\x1fx', '\x1flead', 'esc\x1bx', 'nul\x00x', 'del\x7fx', 'nbsp\xa0x', '\xa0lead', 'x', '😀pw', '', ' ', '$HEX[]', 'q' * 30,
+         # U+FEFF is an ordinary character wherever it stands (a byte order mark is not part of the supported encodings' contract)
+         '\ufeffbom', 'in\ufeffside', '\ufeff']
 
 
 def cps(s):
@@ -216,8 +218,17 @@ def run(ctx):
     # full trained rulesets: plain repeated vs hex vs count-prefixed
     for i in range(ctx.scale(2, 10)):
         enc = rng.choice(['utf-8', 'cp1251'])
-        base = [w for w in ['password', 'pass word', 'пароль', 'trail ', '123456', 'p@ss!', 'qwerty12', 'abc', 'Summer2019', 'x1'] if rng.random() < 0.8]
-        rep = [(w.encode(enc), rng.choice([1, 2, 3])) for w in base]
+        base = [w for w in ['password', 'pass word', 'пароль', 'trail ', '123456', 'p@ss!', 'qwerty12', 'abc', 'Summer2019', 'x1',
+                            '\ufeffbom1', '\ufeff', 'in\ufeffside'] if rng.random() < 0.8]
+        if i == 0:
+            enc = 'utf-8'
+            base = ['first', 'password', '\ufeffbom1', '\ufeff', 'пароль', 'x1']
+        rep = []
+        for w in base:
+            try:
+                rep.append((w.encode(enc), rng.choice([1, 2, 3])))
+            except UnicodeEncodeError:
+                pass
         f1, f2, f3 = (os.path.join(root, n) for n in ('t1.txt', 't2.txt', 't3.txt'))
         with open(f1, 'wb') as f:
             for b, n in rep:
